@@ -50,6 +50,8 @@ theorem coefAt_ok {coefs : List Rat} (h : CoefsOK coefs) {k : Nat} (hk : k < coe
 /-- a profile of frozensets: every ballot is duplicate-free -/
 def WF (votes : Profile) : Prop := ∀ bw ∈ votes, bw.1.Nodup
 
+instance (votes : Profile) : Decidable (WF votes) := by unfold WF; infer_instance
+
 theorem interLen_le {b alt : List Cand} (hb : b.Nodup) : interLen b alt ≤ alt.length := by
   unfold interLen
   have hsub : (b.filter (fun c => alt.contains c)) ⊆ alt := by
@@ -247,5 +249,155 @@ theorem bestAlts_eq {coefs : List Rat} (h : CoefsOK coefs) {votes : Profile} (hw
   · intro alt halt
     have : alt.length = n := (mem_combos.mp halt).2
     rw [satisfaction_eq h hwf (by omega)]; rfl
+
+theorem dropKeys_eq {coefs : List Rat} (h : CoefsOK coefs) {votes : Profile} (hwf : WF votes)
+    {a : List Cand} (hlen : a.length < coefs.length) :
+    dropKeys coefs votes a = .ok (a.map (fun c => (c, -(satH votes (a.filter (· != c)))))) := by
+  unfold dropKeys
+  apply mapM_ok
+  intro c _
+  have : (a.filter (· != c)).length < coefs.length := lt_of_le_of_lt (List.length_filter_le _ _) hlen
+  rw [satisfaction_eq h hwf this]; rfl
+
+theorem orderByScore_eq {coefs : List Rat} (h : CoefsOK coefs) {votes : Profile} (hwf : WF votes)
+    {a : List Cand} (hlen : a.length < coefs.length) :
+    orderByScore coefs votes a = .ok (pavOrder votes a) := by
+  unfold orderByScore
+  rw [dropKeys_eq h hwf hlen]; rfl
+
+theorem maximisers_sub {votes : Profile} {cands : List Cand} {n : Nat} {a : List Cand}
+    (h : a ∈ maximisers votes cands n) : a ∈ combos cands n := (List.mem_filter.mp h).1
+
+/-! ### sets of candidates in iteration order -/
+
+theorem mem_insertNat {x y : Nat} {l : List Nat} : y ∈ insertNat x l ↔ y = x ∨ y ∈ l := by
+  induction l with
+  | nil => simp [insertNat]
+  | cons z zs ih =>
+    unfold insertNat
+    split
+    · simp
+    · split
+      · rename_i h; subst h; simp
+      · simp only [List.mem_cons, ih]; tauto
+
+theorem insertNat_sorted {x : Nat} {l : List Nat} (h : l.Pairwise (· < ·)) : (insertNat x l).Pairwise (· < ·) := by
+  induction l with
+  | nil => simp [insertNat]
+  | cons z zs ih =>
+    have hz := List.pairwise_cons.mp h
+    unfold insertNat
+    split
+    · rename_i hlt
+      refine List.pairwise_cons.mpr ⟨?_, h⟩
+      intro y hy
+      rcases List.mem_cons.mp hy with rfl | hy
+      · exact hlt
+      · exact lt_trans hlt (hz.1 y hy)
+    · split
+      · exact h
+      · rename_i hnlt hne
+        refine List.pairwise_cons.mpr ⟨?_, ih hz.2⟩
+        intro y hy
+        rcases mem_insertNat.mp hy with rfl | hy
+        · omega
+        · exact hz.1 y hy
+
+theorem mem_sortDedup {y : Nat} {l : List Nat} : y ∈ sortDedup l ↔ y ∈ l := by
+  induction l with
+  | nil => simp [sortDedup]
+  | cons x xs ih => simp only [sortDedup, mem_insertNat, ih, List.mem_cons]
+
+theorem sortDedup_sorted (l : List Nat) : (sortDedup l).Pairwise (· < ·) := by
+  induction l with
+  | nil => simp [sortDedup]
+  | cons x xs ih => exact insertNat_sorted ih
+
+theorem sortDedup_nodup (l : List Nat) : (sortDedup l).Nodup :=
+  (sortDedup_sorted l).imp (fun h => Nat.ne_of_lt h)
+
+theorem mem_allCands {votes : Profile} {c : Cand} : c ∈ allCands votes ↔ ∃ bw ∈ votes, c ∈ bw.1 := by
+  unfold allCands
+  rw [mem_sortDedup, List.mem_flatMap]
+
+theorem allCands_nodup (votes : Profile) : (allCands votes).Nodup := sortDedup_nodup _
+
+/-! ### the reported order -/
+
+theorem slotCands_map_cand (l : Votes) : slotCands (l.map (fun p => Slot.cand p.1)) = l.map (·.1) := by
+  induction l with
+  | nil => rfl
+  | cons x xs ih => simp [slotCands, ih]
+
+/-- the sort keys PAV orders a committee by -/
+def dropsOf (votes : Profile) (a : List Cand) : Votes := a.map (fun c => (c, -(satH votes (a.filter (· != c)))))
+
+theorem pavOrder_eq (votes : Profile) (a : List Cand) :
+    pavOrder votes a = (sortDesc (dropsOf votes a)).map (fun p => Slot.cand p.1) := by
+  unfold pavOrder
+  exact getNBest_all _ _ (by simp)
+
+theorem slotCands_pavOrder_perm (votes : Profile) (a : List Cand) : (slotCands (pavOrder votes a)).Perm a := by
+  rw [pavOrder_eq, slotCands_map_cand]
+  have := (sortDesc_perm (dropsOf votes a)).map (·.1)
+  refine this.trans ?_
+  unfold dropsOf
+  rw [List.map_map]
+  simp [Function.comp_def]
+
+/-- `maximisers = [a]` says that `a` is the unique maximiser -/
+theorem maximisers_singleton_iff {votes : Profile} {cands : List Cand} (hc : cands.Nodup) {n : Nat} {a : List Cand} :
+    maximisers votes cands n = [a] ↔
+      a ∈ combos cands n ∧ ∀ b ∈ combos cands n, b ≠ a → satH votes b < satH votes a := by
+  constructor
+  · intro h
+    have ha : a ∈ maximisers votes cands n := by rw [h]; simp
+    have ha' := List.mem_filter.mp ha
+    refine ⟨ha'.1, ?_⟩
+    intro b hb hne
+    have hle : satH votes b ≤ satH votes a := by
+      have := List.all_eq_true.mp ha'.2 b hb
+      simpa using this
+    rcases lt_or_eq_of_le hle with hlt | heq
+    · exact hlt
+    · exfalso
+      have hbm : b ∈ maximisers votes cands n := by
+        apply List.mem_filter.mpr
+        refine ⟨hb, ?_⟩
+        rw [List.all_eq_true]
+        intro c hc'
+        have := List.all_eq_true.mp ha'.2 c hc'
+        simp only [decide_eq_true_eq] at this ⊢
+        rw [heq]; exact this
+      rw [h] at hbm
+      exact hne (List.mem_singleton.mp hbm)
+  · rintro ⟨ha, hlt⟩
+    have hnd : (maximisers votes cands n).Nodup := (combos_nodup hc n).filter _
+    have hall : ∀ b ∈ maximisers votes cands n, b = a := by
+      intro b hb
+      by_contra hne
+      have hb' := List.mem_filter.mp hb
+      have h1 := hlt b hb'.1 hne
+      have h2 := List.all_eq_true.mp hb'.2 a ha
+      simp only [decide_eq_true_eq] at h2
+      exact absurd h1 (not_lt.mpr h2)
+    have hamem : a ∈ maximisers votes cands n := by
+      apply List.mem_filter.mpr
+      refine ⟨ha, ?_⟩
+      rw [List.all_eq_true]
+      intro b hb
+      simp only [decide_eq_true_eq]
+      by_cases hba : b = a
+      · rw [hba]
+      · exact le_of_lt (hlt b hb hba)
+    rcases hm : maximisers votes cands n with _ | ⟨x, _ | ⟨y, t⟩⟩
+    · rw [hm] at hamem; simp at hamem
+    · rw [hm] at hall; rw [hall x (by simp)]
+    · exfalso
+      rw [hm] at hall hnd
+      have hx := hall x (by simp)
+      have hy := hall y (by simp)
+      rw [hx, hy] at hnd
+      simp at hnd
 
 end VL.Appr
